@@ -424,6 +424,50 @@ pub fn read_dir_state(dir: &Path, cfg: &Cfg) -> Result<BTreeMap<KsIdx, Map>, Str
     Ok(out)
 }
 
+/// Life goes on after a recovery: opens the (already recovered) directory again, overwrites one
+/// recovered key, removes another and adds a new key in every keyspace (single writes, then one
+/// batch across all keyspaces), drops the database and returns the content expected after the
+/// next open. Everything written here is acknowledged under the default persist mode, so the
+/// next open must show exactly `recovered` + these writes (C02 / C03 / C11: writes after a
+/// recovery are recoverable again and supersede what was recovered).
+pub fn write_after_recovery(dir: &Path, cfg: &Cfg, recovered: &BTreeMap<KsIdx, Map>, salt: u64) -> Result<BTreeMap<KsIdx, Map>, String> {
+    let mut inst = crate::inst::Instance::open_with(dir, cfg, cfg.journal_lz4, 0)?;
+    let mut expect = recovered.clone();
+    let mut handles = vec![];
+    for (i, m) in recovered {
+        inst.open_ks(cfg, *i as usize, &cfg.opts[*i as usize])?;
+        let k = inst.k(*i).unwrap().clone();
+        let e = expect.get_mut(i).unwrap();
+        let keys: Vec<Vec<u8>> = m.keys().cloned().collect();
+        if let Some(k0) = keys.first() {
+            let v = format!("after-recovery-overwrite-{salt}").into_bytes();
+            k.insert(k0.clone(), v.clone()).map_err(|e| format!("insert after recovery: {e:?}"))?;
+            e.insert(k0.clone(), v);
+        }
+        if keys.len() > 1 {
+            let kl = keys.last().unwrap();
+            k.remove(kl.clone()).map_err(|e| format!("remove after recovery: {e:?}"))?;
+            e.remove(kl);
+        }
+        handles.push((*i, k));
+    }
+    // one batch across every keyspace; big enough to leave the journal's write buffer in pieces
+    let mut b = inst.db.batch();
+    for (i, k) in &handles {
+        let key = b"\xff\xff\xff~after".to_vec();
+        let mut v = format!("after-recovery-batch-{salt}-").into_bytes();
+        v.resize(if salt % 3 == 0 { 9000 } else { 40 }, b'0' + (*i % 10));
+        b.insert(k, key.clone(), v.clone());
+        expect.get_mut(i).unwrap().insert(key, v);
+    }
+    if !handles.is_empty() {
+        b.commit().map_err(|e| format!("batch after recovery: {e:?}"))?;
+    }
+    drop(handles);
+    drop(inst);
+    Ok(expect)
+}
+
 pub fn state_maps(s: &State) -> BTreeMap<KsIdx, Map> {
     s.ks.iter().map(|(k, v)| (*k, v.map.clone())).collect()
 }
